@@ -81,6 +81,10 @@ pub struct RcuSpec {
     pub load_other: Option<u8>,
     /// The closure panics on this attempt (1-based), 0 = never.
     pub panic_at: u8,
+    /// What the closure returns: 0 a fresh value, 1 the empty value (nullable kinds; fresh
+    /// otherwise), 2 a clone of its input ("nothing to update").
+    #[serde(default)]
+    pub out: u8,
 }
 
 #[derive(Clone, Debug, Serialize, Deserialize)]
@@ -347,6 +351,11 @@ pub fn gen_op(rng: &mut Rng, p: &GenParams, n_conts: usize, n_threads: usize, me
             if p.w_rcu_panic > 0 && rng.below(100) < p.w_rcu_panic as u64 {
                 r.panic_at = 1 + rng.below(r.interfere as u64 + 1) as u8;
             }
+            r.out = match rng.below(6) {
+                0 => 1,
+                1 => 2,
+                _ => 0,
+            };
             Op::Rcu { c, r, h }
         }
         12 => Op::IntoInner { c, h },
